@@ -21,7 +21,11 @@ func VerifBuildJPEGICC(n int, sofPos int, withCOM bool, seq, tot []byte) (in []b
 			in = append(in, verifSOF()...)
 		}
 		if withCOM {
-			in = append(in, 0xff, 0xfe, 0, 4)
+			// an interleaved segment of any other kind: COM, any APPn (an APP2 that is not
+			// an ICC chunk included), DQT, DHT, DRI - the marker byte is symbolic
+			m := verifU8()
+			verifAssume(verifOr(verifAnd(m >= 0xe0, m <= 0xef), verifOr(verifOr(m == 0xfe, m == 0xdb), verifOr(m == 0xc4, m == 0xdd))))
+			in = append(in, 0xff, m, 0, 4)
 			in = append(in, verifBytes(2)...)
 		}
 		p := verifBytes(i + 1)
